@@ -1,5 +1,10 @@
-"""Model side of the cross-loop check (CrossLoop.tla)."""
+"""Model side of the cross-loop check: exhaustive TLC runs of specs/crossloop/CrossLoop.tla."""
 
 
 def model_check(ctx):
-    pass
+    for cfg, expect in (('CL_idle1', None), ('CL_idle3', None), ('CL_lit3', None), ('CL_closed2', None),
+                        ('W_D7', 'NoStranded'), ('W_ReCheck', 'OneLockPerLoop'), ('W_ReCheck2', 'NoAlreadyRunning')):
+        if expect:
+            ctx.mc('crossloop', 'MC_CrossLoop', cfg + '.cfg', expect_violation=expect, timeout=300)
+        else:
+            ctx.mc('crossloop', 'MC_CrossLoop', cfg + '.cfg', timeout=600)
